@@ -454,6 +454,19 @@ fn copy_selection_data(
     (route_indices, jobs)
 }
 
+/// Access for verification tooling (guarded, never compiled in normal builds): lets the native replay binary under /verif
+/// drive the crate-private bookkeeping steps of an insertion.
+#[cfg(reinterpretcat_vrp_verif)]
+pub fn verif_apply_insertion_success(insertion_ctx: &mut InsertionContext, success: InsertionSuccess) {
+    apply_insertion_success(insertion_ctx, success)
+}
+
+/// See [`verif_apply_insertion_success`].
+#[cfg(reinterpretcat_vrp_verif)]
+pub fn verif_finalize_insertion_ctx(insertion_ctx: &mut InsertionContext) {
+    finalize_insertion_ctx(insertion_ctx)
+}
+
 #[cfg(kani)]
 #[path = "/verif/kani/vrp-core/insertions_proofs.rs"]
 mod verif_kani_proofs;
